@@ -47,11 +47,22 @@ Definition check_tcp (v : tval) : bool :=
   && (sh_io_after_close sh =? vn (vnth 10 o))
   && (d_cwf (sh_d1 sh) =? vn (vnth 11 o)) && (d_cwf (sh_d0 sh) =? vn (vnth 12 o)).
 
+(* kind 3 — UDP -> tunnel with a stalled tunnel Write:  [3; dgrams; schedule; tunnel_out]
+   the ownership model under the given schedule of main loop / ticker steps must have finished and the tunnel
+   must have consumed exactly what the real tunnel consumed *)
+Definition run_own (v : tval) : st bsh (nat * bpc) :=
+  own_run false (map vb (vl (vnth 1 v))) (map vnat (vl (vnth 2 v))).
+Definition main_done (s : st bsh (nat * bpc)) : bool :=
+  match snd s with (_, BDone) :: _ => true | _ => false end.
+Definition check_own (v : tval) : bool :=
+  let s := run_own v in main_done s && list_eqb (b_out (fst s)) (vb (vnth 3 v)).
+
 Definition check (v : tval) : bool :=
   match vn (vnth 0 v) with
   | 0 => check_deframe v
   | 1 => check_encode v
   | 2 => check_tcp v
+  | 3 => check_own v
   | _ => false
   end.
 
@@ -67,5 +78,6 @@ Definition predict (v : tval) : tval :=
              VN (d_bytes (sh_d0 sh)); VN (d_bytes (sh_d1 sh)); VN (d_err (sh_d0 sh)); VN (d_err (sh_d1 sh));
              VN (d_cw (sh_d1 sh)); VN (d_cw (sh_d0 sh)); VN (sh_ncl_a sh); VN (sh_ncl_b sh); VN (sh_io_after_close sh);
              VN (d_cwf (sh_d1 sh)); VN (d_cwf (sh_d0 sh))]
+  | 3 => let s := run_own v in VL [vN_of_bool (main_done s); VB (b_out (fst s))]
   | _ => VL []
   end.
